@@ -240,6 +240,15 @@ func containerEffects(c *core.Ctx, R string) {
 				}
 			}
 		}
+		// the library form of the same search: return slices.IndexFunc(s.elements, condition)
+		for _, r := range returnsIn(u) {
+			if len(r.Stmt.Results) == 1 {
+				if ce, isC := ast.Unparen(u.Deep(r.Stmt.Results[0])).(*ast.CallExpr); isC && u.CalleeKey(ce) == "slices.IndexFunc" && len(ce.Args) == 2 &&
+					fieldOf(u.Info(), ce.Args[0]) == "Slice.elements" && isLocal(u.Info(), ce.Args[1], paramName(u, 0)) {
+					ok = true
+				}
+			}
+		}
 		c.Check(R, "types.(*Slice).FindIndex/index-on-predicate-true", u.Pos(), ok, "the loop index is returned on the predicate's true edge")
 	}
 	for _, sp := range []struct{ key, what string }{{"types.(*Slice).DoWrite", "store"}, {"types.(*Slice).Replace", "store"}, {"types.(*Slice).DoRead", "call"}} {
